@@ -68,6 +68,8 @@ def findings(repo, prog):
         _g7(f, out)
         _g9(f, out)
         _g10(f, out)
+        _g11(f, out)
+        _g5b(f, out)
     _g1(repo, prog, out)
     _g2(repo, prog, out)
     _g3(repo, prog, out)
@@ -682,6 +684,105 @@ def _g7(f, out):
                            '(e.g. a macro taken as a single-token argument has no arguments)'
                            % (base, k, [('' if p else 'not ') + short(t, 40) for t, p in facts][-3:]),
                            '%s: %s' % (f.qual, unparse(x))))
+
+
+# --------------------------------------------------------------------------- G5b
+
+MAYBE_EMPTY = ('strip', 'lstrip', 'rstrip', 'replace')
+
+
+def short_circuit_facts(node):
+    """facts established by earlier operands of the and/or chains that contain `node` inside one
+    expression: in `a or b`, b is evaluated only when a is false"""
+    out = []
+    child = node
+    par = getattr(node, '_parent', None)
+    while par is not None and isinstance(par, ast.expr):
+        if isinstance(par, ast.BoolOp):
+            idx = [i for i, v in enumerate(par.values) if v is child]
+            if idx:
+                for v in par.values[:idx[0]]:
+                    out.append((v, isinstance(par.op, ast.And)))
+        elif isinstance(par, ast.IfExp):
+            if par.body is child:
+                out.append((par.test, True))
+            elif par.orelse is child:
+                out.append((par.test, False))
+        child, par = par, getattr(par, '_parent', None)
+    return out
+
+
+def _g5b(f, out):
+    """x[<const>] where x is the result of strip()/replace() (may be empty) and no emptiness test
+    of THAT value dominates (a test of the value before stripping does not count)"""
+    if not isinstance(f.node, (ast.FunctionDef, ast.AsyncFunctionDef)):
+        return
+    subs = [x for x in walk_fn(f.node) if isinstance(x, ast.Subscript) and isinstance(x.ctx, ast.Load)
+            and isinstance(x.slice, ast.Constant) and isinstance(x.slice.value, int)
+            and not isinstance(x.slice.value, bool) and isinstance(x.value, ast.Name)]
+    if not subs:
+        return
+    strips = [c for c in walk_fn(f.node) if isinstance(c, ast.Call) and call_name(c) in MAYBE_EMPTY]
+    if not strips:
+        return
+    from . import symex
+    try:
+        cases = symex.Walker(is_sink=lambda n: any(n is x for x in subs), sink_types=(ast.Subscript,)).run(f.node)
+    except (symex.TooManyPaths, RecursionError):
+        return
+    seen = set()
+    for cs in cases:
+        v = cs.sub.value
+        d = symex.resolve(v, cs.env)
+        if not (isinstance(d, ast.Call) and call_name(d) in MAYBE_EMPTY):
+            continue
+        sym = unparse(v)
+        facts = symex.facts_of(list(cs.conds) + short_circuit_facts(cs.node))
+        ok = any((t_ == sym and p_) or (t_ == 'len(%s) <= 2' % sym and not p_) or
+                 (t_.startswith('len(%s) <' % sym) and not p_) or (t_ == 'len(%s)' % sym and p_) or
+                 (t_.startswith('len(%s) ' % sym) and p_) or (t_ == "%s == ''" % sym and not p_)
+                 for t_, p_ in facts)
+        if ok or id(cs.node) in seen:
+            continue
+        seen.add(id(cs.node))
+        out.append(Finding('G5', 'REFUTED', f.mod, enclosing_stmt(cs.node) or cs.node, f.key,
+                           '%s indexes the result of %s, which is empty for an empty or whitespace-only '
+                           'text, and no emptiness test of that result dominates (a test of the text '
+                           'before it was stripped does not help): IndexError'
+                           % (unparse(cs.node), short(d, 50)), '%s: %s' % (f.qual, unparse(cs.node))))
+
+
+# --------------------------------------------------------------------------- G11
+
+PARTIAL_UNICODEDATA = {'name': 'ValueError', 'decimal': 'ValueError', 'digit': 'ValueError',
+                       'numeric': 'ValueError'}
+
+
+def partial_calls(fnode):
+    """calls of standard-library functions that raise for some arguments of their documented
+    domain unless a default is passed: unicodedata.name(c) raises ValueError for every code point
+    without a name (controls, private use, unassigned).  Yields (call, exception name)."""
+    for x in walk_fn(fnode):
+        if isinstance(x, ast.Call) and isinstance(x.func, ast.Attribute) and \
+                isinstance(x.func.value, ast.Name) and x.func.value.id == 'unicodedata' and \
+                x.func.attr in PARTIAL_UNICODEDATA and len(x.args) == 1 and not x.keywords:
+            exc = PARTIAL_UNICODEDATA[x.func.attr]
+            caught = False
+            for p_ in parents(x):
+                if isinstance(p_, ast.Try) and any(x is n_ for b in p_.body for n_ in ast.walk(b)) and any(
+                        h.type is None or any(nm in unparse(h.type) for nm in (exc, 'Exception'))
+                        for h in p_.handlers):
+                    caught = True
+            if not caught:
+                yield x, exc
+
+
+def _g11(f, out):
+    for x, exc in partial_calls(f.node):
+        out.append(Finding('G11', 'REFUTED', f.mod, enclosing_stmt(x) or x, f.key,
+                           '%s has no default and is not inside a handler for %s: it raises for every '
+                           'character without a Unicode name (control characters, private-use and '
+                           'unassigned code points)' % (unparse(x), exc), '%s: %s' % (f.qual, unparse(x))))
 
 
 # --------------------------------------------------------------------------- G10
